@@ -160,8 +160,9 @@ inductive Item where
   | pnResult (p : Pos) (out : Tak.PN.Result Move) (stats : Tak.PN.Stats)
   /-- `PN search analysis:`, ` value=… move=…` and the statistics line of `-dfpn` (`att` = the configured attacker) -/
   | dfpnResult (p : Pos) (att : Color) (out : Tak.DFPN.Result Move) (stats : Tak.DFPN.Stats)
-  /-- `%d. %s` / `%d. ... %s` of `-all` -/
-  | plyLabel (num : Int) (black : Bool) (m : Move)
+  /-- `%d. %s` / `%d. ... %s` of `-all`: move number and colour of the position `p` about to be analysed, and the
+  move the record plays there (the zero move after the last recorded move) -/
+  | plyLabel (p : Pos) (m : Move)
 
 /-- the printed lines of an item (white space normalised, wall-clock fields dropped) -/
 def Item.render (env : PTN.Env) : Item → List String
@@ -181,7 +182,9 @@ def Item.render (env : PTN.Env) : Item → List String
     ["PN search analysis:",
      "value=" ++ resultWord out.result ++ s!" move={moveOrNone env out.move}",
      s!"work={stats.work} terminal={stats.terminal} solved={stats.solved} repetition={stats.repetition} hit={stats.hits}/{stats.hits + stats.miss}"]
-  | .plyLabel num black m => [if black then s!"{num}. ... {fmtMoveS env m}" else s!"{num}. {fmtMoveS env m}"]
+  | .plyLabel p m =>
+    let num := p.move.tdiv 2 + 1
+    [if p.toMove == .black then s!"{num}. ... {fmtMoveS env m}" else s!"{num}. {fmtMoveS env m}"]
 
 /-- what was printed so far, and how the run went on -/
 abbrev Out (α : Type) := List Item × Except Stop α
@@ -326,12 +329,11 @@ def allLoop {E : Type} (env : PTN.Env) (eng : Engines E) (f : Flags) (color : Co
       | none => stop (.panic "Execute: nil position")
       | some p =>
         if p.gameOver.1 then done it else
-        let num := p.move.tdiv 2 + 1
         if p.toMove == .white && color != .black then
-          Out.bind (emit [.plyLabel num false it.move]) fun _ =>
+          Out.bind (emit [.plyLabel p it.move]) fun _ =>
           Out.bind (analyzeWith env eng f w p) fun w => allLoop env eng f color fuel it w b
         else if p.toMove == .black && color != .white then
-          Out.bind (emit [.plyLabel num true it.move]) fun _ =>
+          Out.bind (emit [.plyLabel p it.move]) fun _ =>
           Out.bind (analyzeWith env eng f b p) fun b => allLoop env eng f color fuel it w b
         else allLoop env eng f color fuel it w b
 
